@@ -82,6 +82,9 @@ func genC08(t *rapid.T) isoCase {
 		}
 		tree.Children = append(tree.Children, many)
 	}
+	if shape == 9 || shape == 10 {
+		addFitted(t, tree)
+	}
 	c := isoCase{Tree: tree, PS3: rapid.IntRange(0, 2).Draw(t, "ps3") == 0, PermSeed: rapid.Uint64().Draw(t, "perm"),
 		Route: rapid.SampledFrom([]string{"lib", "lib", "lib", "lib", "net", "makeiso"}).Draw(t, "route")}
 	if c.PS3 {
